@@ -30,6 +30,6 @@ package memefish
 // @   loop 0 invariant lex.Token.Kind == "<eof>" ==> lex.Token.Pos == len(s)
 // @   loop 0 invariant pieces: forall k: 0 <= k && k < len(result) ==> pieceOK(s, result, k, firstPos) && s[result[k].End] == ';' && fresh(result[k])
 // @   loop 0 invariant order: forall k: 0 <= k && k < len(result) - 1 ==> result[k].End < result[k + 1].Pos
-// @   loop 0 invariant gap: forall k: 0 <= k && k < len(result) - 1 ==> spaceOnly(s, result[k].End + 1, result[k + 1].Pos)
-// @   loop 0 invariant gaplast: len(result) > 0 ==> spaceOnly(s, result[len(result) - 1].End + 1, firstPos)
+// @   loop 0 invariant[C12] gap: forall k: 0 <= k && k < len(result) - 1 ==> spaceOnly(s, result[k].End + 1, result[k + 1].Pos)
+// @   loop 0 invariant[C12] gaplast: len(result) > 0 ==> spaceOnly(s, result[len(result) - 1].End + 1, firstPos)
 // @   loop 0 decreases 2 * (len(s) - lex.pos) + ite(lex.Token.Kind == "<eof>", 0, 1)
